@@ -113,6 +113,41 @@ func opStream(pi *pkgInfo, c *Cmd) {
 			streams = append(streams, stream{"enc", buf.Bytes(), ends})
 		}
 	}
+	// every stream is also read through a seekable bytes.Reader (io.Seeker, io.ByteReader, io.WriterTo ...)
+	for _, st := range streams {
+		br := bytes.NewReader(append(append([]byte{}, st.data...), trailer...))
+		total := len(st.data) + len(trailer)
+		start := 0
+		for i := range vals {
+			begin(c.Cid, m, &Event{Ev: "srec", API: "DecodeBebop", Kind: st.kind, Style: "seekable", Sched: ip(0), Rec: ip(i)})
+			e := &Event{Ev: "srec", Cid: c.Cid, M: m, API: "DecodeBebop", Kind: st.kind, Style: "seekable", Sched: ip(0), Rec: ip(i)}
+			rec := newRecord(pi.Pid, c.Root)
+			e.Res, e.Msg, e.Big, e.Alloc = call(total, func() error { return rec.DecodeBebop(br) })
+			pos := total - br.Len()
+			e.Consumed = ip(pos - start)
+			n := st.ends[i]
+			if i > 0 {
+				n -= st.ends[i-1]
+			}
+			e.N = ip(n)
+			if e.Res == "nil" {
+				v, err := liftRecord(pi, c.Root, rec)
+				if err != nil {
+					e.Res = "harness-error"
+					e.Msg = err.Error()
+				} else {
+					e.Val = v
+					e.HasVal = true
+				}
+			}
+			emit(e)
+			m++
+			start = pos
+			if e.Res != "nil" {
+				break
+			}
+		}
+	}
 	scheds := append([][]int{nil}, c.Scheds...)
 	for _, st := range streams {
 		for si, pat := range scheds {
